@@ -71,8 +71,19 @@ impl<'tcx> Coll<'tcx> {
                         Some(_) => J::s("arg"),
                         None => J::Null,
                     };
+                    let count_arg = |c: &Option<ast::FormatCount>| match c {
+                        Some(ast::FormatCount::Argument(p)) => match p.index {
+                            Ok(i) => J::Int(i as i128),
+                            Err(_) => J::Int(-1),
+                        },
+                        _ => J::Null,
+                    };
+                    let width_arg = count_arg(&o.width);
+                    let prec_arg = count_arg(&o.precision);
                     pieces.push(J::Obj(vec![
                         ("arg", J::Int(idx)),
+                        ("width_arg", width_arg),
+                        ("precision_arg", prec_arg),
                         ("trait", J::s(tr)),
                         ("width", width),
                         ("precision", prec),
